@@ -559,4 +559,14 @@ example :
     entrySafe { exCfg 100 with chain := [.backticks, .emph '`' true, .link] }
       "[`[a`[`](u) `".toList [(0, 0)] = true := by decide +kernel
 
+/-- the entry check is STRICTLY stronger than the memo check (`entrySafe_memoSafe` has no converse):
+    same incoherent chain, the inner `[` of the witness replaced by `a` — the label frame `[3, 7)` is
+    still entered with the crossing entry `6 ↦ 13`, but the label run never looks position 6 up, so
+    the guarded run completes -/
+example :
+    entrySafe { exCfg 100 with chain := [.emph '`' true, .backticks, .link] }
+      "[`[a`a`](u) `".toList [(0, 0)] = false ∧
+    memoSafe { exCfg 100 with chain := [.emph '`' true, .backticks, .link] }
+      "[`[a`a`](u) `".toList [(0, 0)] = true := by decide +kernel
+
 end MdIt.Inline
